@@ -502,6 +502,33 @@ func judgeC10(name, prop string, sc *Script, r *RunOut, o *Obs) {
 	}
 }
 
+// topLevelCount counts the elements of a canonical list rendering "[a,b,[c,d]]"
+func topLevelCount(c string) int {
+	if len(c) < 2 || c == "[]" {
+		return 0
+	}
+	depth, n, inStr := 0, 1, false
+	for i := 1; i < len(c)-1; i++ {
+		switch ch := c[i]; {
+		case inStr:
+			if ch == '\\' {
+				i++
+			} else if ch == '"' {
+				inStr = false
+			}
+		case ch == '"':
+			inStr = true
+		case ch == '[' || ch == '{':
+			depth++
+		case ch == ']' || ch == '}':
+			depth--
+		case ch == ',' && depth == 0:
+			n++
+		}
+	}
+	return n
+}
+
 // progID names a library program by its position, or by a hash for other texts
 func progID(text string) string {
 	for i, p := range histProgs {
@@ -536,6 +563,7 @@ func judgeC09(name string, sc *Script, r *RunOut, o *Obs) {
 			texts[op.Fn] = op.Text
 		}
 	}
+	lastCount := map[int]int{}
 	first := map[string]string{} // (handle, observer) -> first successful observation
 	firstAt := map[string]int{}
 	lastDerive := ""
@@ -561,6 +589,19 @@ func judgeC09(name string, sc *Script, r *RunOut, o *Obs) {
 			// the string form of an evaluated (Go-map backed) map has no specified key order;
 			// maps are compared through the key-sorted canonical observer only
 			continue
+		}
+		// cross-observer consistency: size() must agree with the number of elements the
+		// element-wise observation of the same handle showed last
+		if strings.HasPrefix(outs[j].Val, "[i") && strings.Contains(texts[op.Fn], "h.size()") {
+			if n, ok := lastCount[op.Args[0].I]; ok {
+				var sz int
+				fmt.Sscanf(outs[j].Val, "[i%d", &sz)
+				if sz != n {
+					o.add(name, "C09:observers-disagree", fmt.Sprintf("handle h%d: size() = %d but iterating it yields %d elements (op %d); last operation before: %s", op.Args[0].I, sz, n, j, lastDerive))
+				}
+			}
+		} else if texts[op.Fn] == "h" && strings.HasPrefix(outs[j].Val, "[") {
+			lastCount[op.Args[0].I] = topLevelCount(outs[j].Val)
 		}
 		if f, ok := first[key]; !ok {
 			first[key] = outs[j].Val
